@@ -147,10 +147,8 @@ def upperBoundValue (r : QRange) : Option Int :=
 
 /-- `strconv.ParseInt(s, 10, 64)`: optional sign, at least one digit, range check -/
 def parseInt (s : Str) : Option Int :=
-  let (neg, ds) := match s with
-    | 45 :: rest => (true, rest)
-    | 43 :: rest => (false, rest)
-    | _ => (false, s)
+  let neg := s.head? == some 45                                   -- '-'
+  let ds := if s.head? == some 45 || s.head? == some 43 then s.drop 1 else s   -- '-' or '+'
   if ds.isEmpty || !ds.all isDigit then none
   else
     let v := digitsVal ds
